@@ -1463,7 +1463,10 @@ FormatterToXML::writeNormalizedChars(
                 writeNumberedEntityReference(c);
             }
 
-            if(i != 0 && i < end - 1)
+            // Open the section (again), unless this was the last
+            // character.  cdata() does not open it when the first
+            // character is not representable.
+            if(i < end - 1)
             {
                 // "<![CDATA["
                 accumContent(XalanUnicode::charLessThanSign);
